@@ -13,6 +13,7 @@ CONSTANTS
   Trials = 2
   Fix = {"repin_sole"}
   Mut = {}
+  Loop = {}
 INVARIANTS TypeOK C16 EpochBound C13
 PROPERTIES Mono
 CHECK_DEADLOCK FALSE
